@@ -665,12 +665,16 @@ type c19Doc struct {
 	text    string // the object text as generated (without members added for the write path)
 	written string // what was sent
 	want    any    // normalised expected value
+	sig     string // overrides the failure signature (promoted conflict bodies)
 }
 
 func (e *c19Env) failFidelity(d c19Doc, read string, detail string, got []byte) {
 	sig := "fidelity:" + d.write + ":" + read
 	if c19IsBlankObject(d.text) && (d.write == "blip_rev" || d.write == "import") {
 		sig = "inject-blank-object"
+	}
+	if d.sig != "" {
+		sig = d.sig
 	}
 	e.fail("body_fidelity", sig, map[string]any{"write_path": d.write, "read_path": read, "body": d.text, "sent": d.written, "doc": d.id},
 		detail+" got="+c19Short(got))
@@ -708,6 +712,7 @@ func (e *c19Env) fidelity(n int) {
 	since := "0"
 	var batch []c19Doc
 	var later []func()
+	var promote []c19Doc // documents whose adversarial body is the LOSING leaf 1-aaa next to 1-zzz
 	flush := func() {
 		if len(batch) == 0 {
 			return
@@ -748,6 +753,43 @@ func (e *c19Env) fidelity(n int) {
 			f()
 		}
 		later = nil
+		// then the losing leaves are promoted (their winning branch is tombstoned) and read from the bucket
+		if len(promote) > 0 {
+			var promoted []c19Doc
+			for _, d := range promote {
+				if pd, ok := e.promoteLoser(d); ok {
+					promoted = append(promoted, pd)
+				}
+			}
+			promote = nil
+			e.rt.GetDatabase().FlushRevisionCacheForTest()
+			feed, whole, raw := e.changesFeed(since)
+			e.blipPull(since)
+			if whole {
+				var ls struct {
+					LastSeq string `json:"last_seq"`
+				}
+				if json.Unmarshal(raw, &ls) == nil && ls.LastSeq != "" {
+					since = ls.LastSeq
+				}
+			}
+			for _, d := range promoted {
+				if body, ok := feed[d.id]; ok {
+					e.checkRead(d, "promoted_changes_feed", c19Read{body: body})
+				} else {
+					e.checkRead(d, "promoted_changes_feed", c19Read{err: "no usable row in the feed response: " + c19Short(raw)})
+				}
+				e.pullMu.Lock()
+				body, ok := e.pulled[d.id]
+				perr := e.pullErr[d.id]
+				e.pullMu.Unlock()
+				if ok {
+					e.checkRead(d, "promoted_blip_pull", c19Read{body: body})
+				} else {
+					e.checkRead(d, "promoted_blip_pull", c19Read{err: "not received: " + perr})
+				}
+			}
+		}
 	}
 	for i := 0; i < n; i++ {
 		members := e.rnd.Intn(5)
@@ -760,6 +802,10 @@ func (e *c19Env) fidelity(n int) {
 			style = 1 + e.rnd.Intn(2)
 		}
 		w := c19WritePaths[i%len(c19WritePaths)]
+		if w.name == "put_new_edits_false" && e.rnd.Chance(40) {
+			// longer than MaximumInlineBodySize: as a non-winning revision it is stored out of line (_sync:rb:)
+			obj = c19WithMember(obj, "pad", &c19V{k: 's', lit: strings.Repeat("0123456789", 30)}, e.rnd.Bool())
+		}
 		id := e.newID("f" + w.name[:2])
 		text := e.gen.text(obj, style)
 		want, ok := c19Want(text)
@@ -783,7 +829,16 @@ func (e *c19Env) fidelity(n int) {
 			later = append(later, func() { e.oldRevision(d) })
 		}
 		if w.name == "put_new_edits_false" {
-			later = append(later, func() { e.conflictingRevision(d) })
+			// order A: the adversarial body is current first and becomes the loser when 1-zzz arrives
+			later = append(later, func() {
+				if e.conflictingRevision(d) {
+					promote = append(promote, d)
+				}
+			})
+			// order B: the winner exists first, the adversarial body arrives as a non-winning revision
+			if d2, ok := e.loserSecond(obj, style, text, want); ok {
+				promote = append(promote, d2)
+			}
 		}
 		if len(batch) >= 40 {
 			flush()
@@ -815,18 +870,82 @@ func (e *c19Env) oldRevision(d c19Doc) {
 }
 
 // add a conflicting, winning revision 1-zzz next to 1-aaa, then read the losing one
-func (e *c19Env) conflictingRevision(d c19Doc) {
+func (e *c19Env) conflictingRevision(d c19Doc) bool {
 	r := e.admin("PUT", "/{{.keyspace}}/"+d.id+"?new_edits=false", `{"winner":true,"_revisions":{"start":1,"ids":["zzz"]}}`)
 	if r.Code != 201 {
 		e.rec.Err(fmt.Sprintf("conflict_write:%d", r.Code))
-		return
+		return false
 	}
+	e.losingLeafReads(d)
+	return true
+}
+
+// order B: 1-zzz first, then the adversarial body as the non-winning revision 1-aaa
+func (e *c19Env) loserSecond(obj *c19V, style int, text string, want any) (c19Doc, bool) {
+	id := e.newID("fls")
+	r := e.admin("PUT", "/{{.keyspace}}/"+id+"?new_edits=false", `{"winner":true,"_revisions":{"start":1,"ids":["zzz"]}}`)
+	if r.Code != 201 {
+		e.rec.Err(fmt.Sprintf("loser_second_winner:%d", r.Code))
+		return c19Doc{}, false
+	}
+	revs := &c19V{k: 'o', keys: []string{"start", "ids"}, vals: []*c19V{{k: '#', lit: "1"}, {k: 'a', arr: []*c19V{{k: 's', lit: "aaa"}}}}}
+	written := e.gen.text(c19WithMember(obj, "_revisions", revs, e.rnd.Bool()), style)
+	r = e.admin("PUT", "/{{.keyspace}}/"+id+"?new_edits=false", written)
+	d := c19Doc{write: "put_new_edits_false_as_loser", id: id, rev: "1-aaa", text: text, written: written, want: want}
+	if r.Code != 201 {
+		e.rec.Err(fmt.Sprintf("write:%s:%d", d.write, r.Code))
+		e.fail("body_accepted", "write-rejected:"+d.write, map[string]any{"write_path": d.write, "body": written},
+			fmt.Sprintf("a body without reserved properties was rejected with status %d", r.Code))
+		return c19Doc{}, false
+	}
+	g := e.adminJSON("GET", "/{{.keyspace}}/"+id+"?rev=1-aaa", "")
+	if g.Code == 200 {
+		e.checkRead(d, "conflicting_rev_cached", c19Read{body: g.BodyBytes()})
+	} else {
+		e.checkRead(d, "conflicting_rev_cached", c19Read{err: fmt.Sprintf("status %d %s", g.Code, c19Short(g.BodyBytes()))})
+	}
+	e.losingLeafReads(d)
+	return d, true
+}
+
+// tombstone the winning branch so that the losing leaf 1-aaa becomes the current revision; then read it from
+// the bucket (revision cache flushed) through every per-document read path
+func (e *c19Env) promoteLoser(d c19Doc) (c19Doc, bool) {
+	r := e.admin("PUT", "/{{.keyspace}}/"+d.id+"?new_edits=false", `{"_deleted":true,"_revisions":{"start":2,"ids":["del","zzz"]}}`)
+	if r.Code != 201 {
+		e.rec.Err(fmt.Sprintf("promote_tombstone:%d", r.Code))
+		return d, false
+	}
+	d.sig = "fidelity:promoted-conflict-body"
+	d.write = d.write + "+promoted"
+	e.rt.GetDatabase().FlushRevisionCacheForTest()
+	for name, rd := range e.readPaths(d.id, "1-aaa") {
+		e.checkRead(d, "promoted_"+name, rd)
+	}
+	// and once more without naming the revision: it must be the current one now
+	g := e.adminJSON("GET", "/{{.keyspace}}/"+d.id, "")
+	if g.Code != 200 {
+		e.checkRead(d, "promoted_get_current", c19Read{err: fmt.Sprintf("status %d %s", g.Code, c19Short(g.BodyBytes()))})
+	} else if m, ok := c19DecodeObj(g.BodyBytes()); !ok || m["_rev"] != "1-aaa" {
+		e.checkRead(d, "promoted_get_current", c19Read{err: "the losing leaf was not promoted: " + c19Short(g.BodyBytes())})
+	}
+	return d, true
+}
+
+// the non-promoted losing leaf, read from the bucket after a revision cache flush
+func (e *c19Env) losingLeafReads(d c19Doc) {
 	e.rt.GetDatabase().FlushRevisionCacheForTest()
 	g := e.adminJSON("GET", "/{{.keyspace}}/"+d.id+"?rev=1-aaa", "")
 	if g.Code == 200 {
 		e.checkRead(d, "conflicting_rev", c19Read{body: g.BodyBytes()})
 	} else {
 		e.checkRead(d, "conflicting_rev", c19Read{err: fmt.Sprintf("status %d %s", g.Code, c19Short(g.BodyBytes()))})
+	}
+	bg := e.admin("POST", "/{{.keyspace}}/_bulk_get", fmt.Sprintf(`{"docs":[{"id":%q,"rev":"1-aaa"}]}`, d.id))
+	if part, err := c19FirstPart(bg.Header().Get("Content-Type"), bg.BodyBytes()); bg.Code != 200 || err != nil {
+		e.checkRead(d, "conflicting_bulk_get", c19Read{err: fmt.Sprintf("status %d %v", bg.Code, err)})
+	} else {
+		e.checkRead(d, "conflicting_bulk_get", c19Read{body: part})
 	}
 	o := e.adminJSON("GET", "/{{.keyspace}}/"+d.id+"?open_revs=all", "")
 	var arr []map[string]json.RawMessage
@@ -1439,5 +1558,7 @@ func TestVerifC19(t *testing.T) {
 	e.reservedStream()
 	e.fidelity(vBudget(240, 2400))
 	rec.Extra("write_paths", []string{"put", "post", "bulk_docs", "put_new_edits_false", "blip_rev", "import"})
-	rec.Extra("read_paths", []string{"get", "get_revs", "get_rev", "open_revs", "bulk_get", "all_docs", "changes_docids", "changes_feed", "blip_pull", "old_rev_cached", "old_rev_backup", "conflicting_rev", "conflicting_open_revs"})
+	rec.Extra("read_paths", []string{"get", "get_revs", "get_rev", "open_revs", "bulk_get", "all_docs", "changes_docids", "changes_feed", "blip_pull", "old_rev_cached", "old_rev_backup", "conflicting_rev", "conflicting_rev_cached", "conflicting_bulk_get", "conflicting_open_revs",
+		"promoted_{get,get_revs,get_rev,open_revs,bulk_get,all_docs,changes_docids,get_current,changes_feed,blip_pull}"})
+	rec.Extra("conflict_paths", "losing leaf 1-aaa next to 1-zzz, written first (demoted) or second (arrives as non-winning), 40% of them > 250 bytes (out of line); read from the bucket after a cache flush; then the winning branch is tombstoned, the loser promoted and read through every read path")
 }
